@@ -419,6 +419,84 @@ theorem inv_step (s : Acc) (e : AEv) (s' : Acc) (hi : AInv s) (hs : astep s e = 
 theorem inv_reachable (s : Acc) (h : amachine.Reachable s) : AInv s :=
   Machine.invariant_reachable amachine AInv inv_init (fun s e s' hi hs => inv_step s e s' hi hs) s h
 
+/-- no scheduler object remembers a replacement that has been carried out -/
+theorem stale_step (s : Acc) (e : AEv) (s' : Acc) (hi : ∀ k, s.stale k = false) (hs : astep s e = some s') :
+    ∀ k, s'.stale k = false := by
+  have hd : ∀ (t : Acc) (r : SchedRec), (∀ k, t.stale k = false) → ∀ k, (Model.Stop.discard t r).stale k = false := by
+    intro t r ht k
+    simp only [Model.Stop.discard, freeSched]
+    split <;> exact ht k
+  cases e with
+  | poolCreate p a => simp only [astep] at hs; split at hs <;> cases hs; exact hi
+  | poolFree p => simp only [astep] at hs; split at hs <;> cases hs; exact hi
+  | schedCreate k ps a =>
+    simp only [astep] at hs
+    split at hs
+    · cases hs
+    · cases hs; intro j; by_cases h : j = k <;> simp [upd, h, hi j]
+  | schedFree k =>
+    simp only [astep] at hs
+    split at hs
+    · split at hs
+      · cases hs; intro j; simp only [freeSched]; exact hi j
+      · cases hs
+    · cases hs
+  | streamCreate x k =>
+    simp only [astep] at hs
+    split at hs
+    · split at hs
+      · cases hs; exact hi
+      · cases hs
+    · cases hs
+  | replace x k =>
+    simp only [astep] at hs
+    split at hs
+    · split at hs
+      · split at hs
+        · cases hs
+          apply hd
+          intro j
+          show (if (!s.joined x) = true then upd s.stale _ false else s.stale) j = false
+          split
+          · simp only [upd]; split <;> simp [hi j]
+          · exact hi j
+        · cases hs
+      · cases hs
+    · cases hs
+  | streamFree x =>
+    simp only [astep] at hs
+    split at hs
+    · split at hs
+      · cases hs; exact hd _ _ hi
+      · cases hs
+    · cases hs
+  | join x => simp only [astep] at hs; split at hs <;> cases hs; exact hi
+  | revive x =>
+    simp only [astep] at hs
+    split at hs
+    · split at hs
+      · cases hs; exact hi
+      · cases hs
+    · cases hs
+  | stackPush k =>
+    simp only [astep] at hs
+    split at hs
+    · split at hs
+      · cases hs; exact hi
+      · cases hs
+    · cases hs
+  | stackDone k =>
+    simp only [astep] at hs
+    split at hs
+    · split at hs
+      · cases hs; exact hd _ _ hi
+      · cases hs
+    · cases hs
+
+theorem stale_reachable (s : Acc) (h : amachine.Reachable s) : ∀ k, s.stale k = false :=
+  Machine.invariant_reachable amachine (fun s => ∀ k, s.stale k = false) (fun _ => rfl)
+    (fun s e s' hi hs => stale_step s e s' hi hs) s h
+
 /-- if all the entries `p` of all live schedulers add up to 1, one scheduler has it, once -/
 theorem occ_one_unique (l : List SchedRec) (p : PoolId) (h1 : occ l p = 1) (hn : (l.map (·.id)).Nodup)
     (r r' : SchedRec) (hr : r ∈ l) (hp : p ∈ r.pools) (hr' : r' ∈ l) (hp' : p ∈ r'.pools) : r' = r := by
